@@ -481,7 +481,7 @@ def hist(vals):
     return h
 
 
-def corpus_run(ctx, fam, build, K, extra_adv, nlo=-1, nhi=3, stage1=False, second_pass=None, ref_tree="src", unbuildable_is_violation=False, batch=None):
+def corpus_run(ctx, fam, build, K, extra_adv, nlo=-1, nhi=3, stage1=False, second_pass=None, ref_tree="src", unbuildable_is_violation=False, batch=None, surviving_stub_is_violation=False):
     """generate, compile, quarantine, run the engine on the pairs, replay; returns a dict"""
     corp = corpus.Corpus(ctx, fam)
     corp.driver_bin = runner.build_driver(ctx) if not getattr(ctx, "driver_bin", None) else ctx.driver_bin
@@ -511,6 +511,17 @@ def corpus_run(ctx, fam, build, K, extra_adv, nlo=-1, nhi=3, stage1=False, secon
         corp.quarantine_unbuildable(("out",))
         if unbuildable_is_violation:
             front_end = list(corp.unbuildable.items())
+    if surviving_stub_is_violation:
+        # C12: generated code that still calls the no-op stubs co.Yield / co.YieldFrom has silently
+        # dropped a yield, whatever else it does (front-end observation, not a solver verdict)
+        stub = re.compile(r"(?<![\w.])(?:\w+\.)?Yield(?:From)?(?:\[[^\]]*\])?\(")
+        for pid, d in list(corp.where.items()):
+            fp = os.path.join(ctx.ws, "out", d, "gen_%s.go" % pid)
+            if not os.path.exists(fp):
+                continue
+            code = "\n".join(l for l in open(fp).read().splitlines() if not l.lstrip().startswith("//"))
+            if stub.search(code):
+                front_end.append((pid, "generated code still calls the no-op stub: " + stub.search(code).group(0)))
     pairs = corp.pairs(ref_tree=ref_tree)
     if not pairs:
         raise CheckError("no corpus package survived compilation")
@@ -556,8 +567,8 @@ def corpus_run(ctx, fam, build, K, extra_adv, nlo=-1, nhi=3, stage1=False, secon
 
 
 def corpus_check(ctx, fam, build, K, extra_adv, level_extra, assumptions, floors, nlo=-1, nhi=3, stage1=False, second_pass=None, ref_tree="src",
-                 unbuildable_is_violation=False, batch=None, more_runs=()):
-    runs = [corpus_run(ctx, fam, build, K, extra_adv, nlo, nhi, stage1, second_pass, ref_tree, unbuildable_is_violation, batch)] + list(more_runs)
+                 unbuildable_is_violation=False, batch=None, more_runs=(), surviving_stub_is_violation=False):
+    runs = [corpus_run(ctx, fam, build, K, extra_adv, nlo, nhi, stage1, second_pass, ref_tree, unbuildable_is_violation, batch, surviving_stub_is_violation)] + list(more_runs)
     main = runs[0]
     res = main["res"]
     new, known, replayed, mism, details, fe_details = 0, [], 0, 0, [], []
@@ -845,7 +856,7 @@ def plan_C04(ctx):
     K = ctx.q(10, 14)
 
     def build(corp):
-        ps = gen.c04_programs(strlens=ctx.q((0, 1, 2, 3), (0, 1, 2, 3, 4)))
+        ps = gen.c04_programs(strlens=ctx.q((0, 1, 2, 3), (0, 1, 2, 3, 4))) + gen.c04_typeparam_programs()
         for p in ps:
             corp.add(p)
         fams = {}
@@ -1038,7 +1049,7 @@ def plan_C12(ctx):
         "bounds": {"advances_K": K, "outside": "constructs / positions not generated; range over func (needs go >= 1.23 sources); programs the engine cannot execute (select, go) are undecided when accepted"},
         "explanation": "the real compiler decides first: no output (panic/diagnostic) = rejected, allowed; output that does not type-check = unbuildable, allowed by the statement; otherwise the C01 equivalence query decides whether the generated code behaves like the source (goto/labels/fallthrough/defer are executed natively from the source's SSA). Only 'builds and behaves differently' is a violation.",
     }
-    return corpus_check(ctx, "c12", build, K, 0, extra, [REF_ASSUMPTION, PROGRAM_DIM], floors={"programs_examined": ctx.q(100, 500)}, batch=2)
+    return corpus_check(ctx, "c12", build, K, 0, extra, [REF_ASSUMPTION, PROGRAM_DIM], floors={"programs_examined": ctx.q(100, 500)}, batch=2, surviving_stub_is_violation=True)
 
 
 CLAIMED["C12"] = plan_C12
